@@ -82,8 +82,28 @@ def rules():
     return "\n\n".join(out)
 
 
+def benign():
+    out = ["| refactoring | kind | what | checks run | result |", "|---|---|---|---|---|"]
+    res = {}
+    if os.path.exists('/verif/benign/results.txt'):
+        for l in open('/verif/benign/results.txt'):
+            m = re.match(r'(\S+): alarms=(\d+)', l.strip())
+            if m:
+                res[m.group(1)] = int(m.group(2))
+    for d in sorted(glob.glob('/verif/benign/C*')):
+        pid = os.path.basename(d)
+        meta = json.load(open(d + '/meta.json')) if os.path.exists(d + '/meta.json') else []
+        for e in meta:
+            f = e.get("file")
+            k = "%s/%s" % (pid, f)
+            r = res.get(k)
+            out.append("| `benign/%s` | %s | %s | all 27 | %s |" % (k, (e.get("kind") or "")[:60].replace('|', '/'), (e.get("what") or "")[:260].replace('|', '/').replace('\n', ' '),
+                                                              "silent" if r == 0 else ("pending" if r is None else "%d alarm(s) — see text" % r)))
+    return "\n".join(out)
+
+
 s = open(D).read()
-for name, fn in (("findings", findings), ("seeds", seeds), ("rules", rules)):
+for name, fn in (("findings", findings), ("seeds", seeds), ("rules", rules), ("benign", benign)):
     a, b = "<!-- GEN:%s -->" % name, "<!-- /GEN:%s -->" % name
     if a in s and b in s:
         s = s[:s.index(a) + len(a)] + "\n" + fn() + "\n" + s[s.index(b):]
